@@ -594,8 +594,24 @@ func run1(in Sx) Sx {
 			return List(Int(0))
 		}
 		q := e1.sent[len(e1.sent)-1]
-		return List(Int(1), Int(int64(len(e1.sent))), hdrOfPkt(q).sx(), bodySx(q.Body()), Int(int64(q.Errno())),
-			res(func() Sx { return Bytes(q.BodyToBytes()) }))
+		first := []Sx{Int(1), Int(int64(len(e1.sent))), hdrOfPkt(q).sx(), bodySx(q.Body()), Int(int64(q.Errno())),
+			res(func() Sx { return Bytes(q.BodyToBytes()) })}
+		// the endpoint only queued the reply; the request object is recycled for the next message
+		// before the reply is encoded: what the reply carries must not change
+		Catch(func() {
+			p.Reset()
+			for i := 0; i <= len(h.refers); i++ {
+				p.AddRefers(fatchoy.NodeID(99999990 + i))
+			}
+			p.SetSeq(h.seq + 1)
+			p.SetNode(fatchoy.NodeID(h.node + 1))
+			p.SetType(fatchoy.PacketType(h.typ + 1))
+			p.SetCommand(h.cmd + 1)
+			p.SetBody("recycled")
+			p.SetFlag(fatchoy.PacketFlag(^h.flg))
+		})
+		later := res(func() Sx { return List(hdrOfPkt(q).sx(), bodySx(q.Body()), Int(int64(q.Errno()))) })
+		return ListOf(append(first, later))
 	case 6:
 		p := packet.New(7, 1, fatchoy.PacketFlag(in.At(1).Int64()), goValue(in.At(2)))
 		return List(bodySx(p.Body()),
